@@ -416,7 +416,8 @@ def summarize_groups(ctx, res, what):
             if nfail <= 3:
                 ctx.violation('%s (case %s)' % (e['fails'][0], e['name']),
                               {'case': e['name'], 'registry': e['reg'], 'other_variant': e.get('failing_variant'), 'failures': e['fails'],
-                               'replay_case': case_text(e['name'], e['reg'], ['vec']) + (case_text(e['name'] + '.b', e['failing_variant'], ['vec']) if e.get('failing_variant') else '')})
+                               'history': e.get('history'), 'policy': e.get('policy'),
+                               'replay_case': ('case %s\nids small\n%s\nend\n' % (e['name'], '\n'.join(e['history']))) if e.get('history') else case_text(e['name'], e['reg'], ['vec']) + (case_text(e['name'] + '.b', e['failing_variant'], ['vec']) if e.get('failing_variant') else '')})
         if e.get('ndiffs'):
             ndiff += 1
             if ndiff <= 2 and not e['fails']:
@@ -696,3 +697,105 @@ def history_suite(tier, seed):
         res['wall'] = time.time() - t0
         return res
     return cached('history', tier, seed, compute)
+
+
+# --------------------------------------------------------------------------- C10: the same registry under every RTTI flavour
+
+def with_aliases(rng, reg):
+    """several ids per class: alias ids n+1.. map to their class's representative id; records, bases, method and
+    definition parameters use any id of the class"""
+    n = reg['n']; alias = {}; ids = {c: [c] for c in range(1, n + 1)}; nxt = n + 1
+    for c in range(1, n + 1):
+        for _ in range(rng.choice([0, 0, 1, 2])):
+            if nxt < 60:
+                alias[str(nxt)] = c; ids[c].append(nxt); nxt += 1
+    pick = lambda c: rng.choice(ids[c])
+    recs = []
+    for c, a, bases in reg['records']:
+        recs.append([pick(c), a, [pick(b) for b in bases]])
+    # every alias id must be registered (an id is known to the library only through a class record)
+    for c in range(1, n + 1):
+        for t in ids[c]:
+            if not any(r[0] == t for r in recs):
+                proto = [r for r in reg['records'] if r[0] == c][0]
+                recs.append([t, proto[1], [pick(b) for b in proto[2]]])
+    ms = [{'shape': m['shape'], 'vp': [pick(c) for c in m['vp']],
+           'defs': [{'vp': [pick(c) for c in d['vp']], 'next': d['next']} for d in m['defs']]} for m in reg['methods']]
+    r2 = dict(reg); r2['records'] = recs; r2['methods'] = ms; r2['alias'] = alias
+    return r2
+
+
+def rtti_suite(tier, seed):
+    def compute():
+        t0 = time.time()
+        binp, blog = corelib.h1_binary(); mdl, mlog = corelib.model_binary()
+        res = {'build': {'h1': bool(binp), 'model': bool(mdl), 'h1_log': '' if binp else blog[-1500:], 'model_log': '' if mdl else mlog[-1500:]},
+               'cases': [], 'dist': {}, 'n': 0}
+        if not binp or not mdl:
+            return res
+        rng = vlib.Rng(seed * 32452843 + 10)
+        n = 100 if tier == 'quick' else 1000
+        flavours = [('vec', 'small', False), ('hash', 'typeid', False), ('chk', 'small', False), ('proj', 'small', True),
+                    ('def', 'small', False), ('def', 'typeid', False), ('defvec', 'small', False)]
+        text = []; queries = []; groups = []
+        for i in range(n):
+            reg = gen_registry(rng, shapes=LITE_SHAPES, max_classes=7, max_methods=3, max_arity=3)
+            vs = []
+            for fi, (pol, ids, al) in enumerate(flavours):
+                r = with_aliases(rng, reg) if al else reg
+                nupd = rng.choice([1, 1, 2, 3])
+                name = 't%d.%d' % (i, fi)
+                lines = ['case %s' % name, 'ids %s' % ids] + ['alias %d %d' % (int(a), b) for a, b in sorted((int(k), v) for k, v in r['alias'].items())]
+                lines += case_lines(r, pol, update=False) + ['@%s update' % pol] * nupd + ['end']
+                text.append('\n'.join(lines) + '\n'); queries.append((name, query_text(name, r)))
+                vs.append((name, pol, ids, r, nupd))
+            groups.append(('t%d' % i, reg, vs))
+        impl = {}; model = {}
+        for b0 in range(0, len(text), 350):
+            impl.update(run_h1(binp, ''.join(text[b0:b0 + 350]), timeout=1200))
+            model.update(run_model(mdl, queries[b0:b0 + 350], timeout=1200))
+        for gname, reg, vs in groups:
+            fails = []; ndiff = 0; views = []
+            nn = reg['n']
+            for name, pol, ids, r, nupd in vs:
+                ir = impl.get(name, {'lines': [], 'crashed': True, 'stderr': 'no output'})
+                if ir['crashed']:
+                    fails.append('flavour %s/%s: the library crashed: %s' % (pol, ids, ir['stderr'][-300:])); continue
+                chunks = split_updates(split_by_policy(ir['lines']).get(pol, []))
+                if len(chunks) != nupd:
+                    fails.append('flavour %s/%s: %d updates requested, %d observed' % (pol, ids, nupd, len(chunks))); continue
+                mobs = parse_obs(model.get(name, []))
+                for k, ch in enumerate(chunks):
+                    iobs = parse_obs(ch)
+                    ev = evaluate(r, pol, iobs, mobs)
+                    ndiff += 1 if ev['ndiffs'] else 0
+                    for prop in ('C01', 'C02', 'C03'):
+                        for msg in ev['fail'].get(prop, [])[:1]:
+                            fails.append('flavour %s/%s, update %d: %s' % (pol, ids, k + 1, msg))
+                    v = user_view(r, iobs)
+                    # an id of a class behaves like the class's representative id
+                    al = {int(a): b for a, b in r.get('alias', {}).items()}
+                    if al:
+                        for key, val in v.items():
+                            t = key.split()
+                            if t[0] in ('disp', 'call') and any(int(x) in al for x in t[2:]):
+                                rk = ' '.join(t[:2] + [str(al.get(int(x), int(x))) for x in t[2:]])
+                                rv = v.get(rk)
+                                val2 = re.sub(r'types .*$', 'types', val); rv2 = re.sub(r'types .*$', 'types', rv or '')
+                                if rv is not None and val2 != rv2:
+                                    fails.append('flavour %s: call %s gives %s but with the class\'s other id (%s) it gives %s' % (pol, key, val, rk, rv)); break
+                    core = {kk: vv for kk, vv in v.items() if kk.split()[0] in ('disp', 'next', 'update') and all(int(x) <= nn for x in kk.split()[2:] if kk.split()[0] == 'disp')}
+                    views.append(('%s/%s update %d' % (pol, ids, k + 1), core))
+            if views:
+                n0, v0 = views[0]
+                for n1, v1 in views[1:]:
+                    for kk in sorted(set(v0) | set(v1)):
+                        if v0.get(kk) != v1.get(kk):
+                            fails.append('%s vs %s: %s is %s vs %s' % (n0, n1, kk, v0.get(kk), v1.get(kk))); break
+            res['cases'].append({'name': gname, 'reg': reg, 'orders': len(views), 'hash': reg_hash(reg), 'nontrivial': is_nontrivial(reg),
+                                 'fails': fails[:5], 'ndiffs': ndiff, 'failing_variant': None})
+            res['dist'][reg.get('kind', 'corpus')] = res['dist'].get(reg.get('kind', 'corpus'), 0) + 1
+        res['n'] = sum(len(vs) for _, _, vs in groups)
+        res['wall'] = time.time() - t0
+        return res
+    return cached('rtti', tier, seed, compute)
